@@ -98,6 +98,9 @@ pub enum IdxList {
     Matching,
     Truncated,
     Extended,
+    /// a VALID signature restricted to the first half of its won indices (in the signature itself and in the list)
+    #[serde(alias = "Restricted")]
+    Restricted,
 }
 
 #[derive(Clone, Debug, PartialEq, Eq, Serialize, Deserialize)]
@@ -795,6 +798,14 @@ impl Run {
                     let keep = sig.won_indexes.len() / 2;
                     sig.won_indexes.truncate(keep);
                 }
+                IdxList::Restricted => {
+                    let mut ps = sig.to_protocol_signature();
+                    let idx = ps.get_concatenation_signature_indices();
+                    let keep: Vec<u64> = idx[..(idx.len() / 2).max(1).min(idx.len())].to_vec();
+                    ps.set_concatenation_signature_indices(&keep);
+                    sig.signature = ps.into();
+                    sig.won_indexes = keep;
+                }
                 IdxList::Extended => {
                     let extra = (0..self.model.params.m).find(|i| !sig.won_indexes.contains(i));
                     if let Some(x) = extra {
@@ -805,7 +816,7 @@ impl Run {
             let honest = label_party == Some(by)
                 && producer == by
                 && s.flavour == Flavour::Valid
-                && (s.idx == IdxList::Matching || s.inlet == Inlet::Dmq);
+                && (s.idx == IdxList::Matching || s.idx == IdxList::Restricted || s.inlet == Inlet::Dmq);
             let valid_for_producer = match (open_now.get(&tkey(&t)), self.model.keyset_for_signing_epoch(es)) {
                 (Some((_, m)), Some(proper)) => Some(self.model.verifies_for_party(&proper, producer, &sig, &m.compute_hash())),
                 _ => None,
